@@ -41,11 +41,11 @@ def gen_default(rng, kind):
     if kind == "dict_str_list":
         return rng.choice([None, {"k": [1]}, {"a": [], "b": [2, 3]}])
     if kind in ("list_untyped", "list_any"):
-        return rng.choice([None, [1], [[1], 2], [[1, [2]]], [{"k": [1]}]])
+        return rng.choice([None, [], [1], [[1], 2], [[1, [2]]], [{"k": [1]}]])
     if kind in ("dict_untyped", "dict_any"):
-        return rng.choice([None, {"k": 1}, {"k": [1]}, {"a": {"b": [1]}}])
+        return rng.choice([None, {}, {"k": 1}, {"k": [1]}, {"a": {"b": [1]}}])
     if kind == "any":
-        return rng.choice([None, 5, [1], {"k": [1]}, [[1]]])
+        return rng.choice([None, 5, [], {}, [1], {"k": [1]}, [[1]]])
     raise ValueError(kind)
 
 
@@ -200,7 +200,8 @@ def observe(roots, schemas):
     obs = {"cfgs": [tree_of(r) for r in roots], "dyn": [dyn_of(r) for r in roots], "defaults": [], "fields": [], "options": []}
     for s in schemas:
         obs["defaults"].append([[k, tree_of(f.default)] for k, f in s._fields.items() if isinstance(f, Field) and type(f).__name__ not in ("VirtualField", "InstanceMethodField")])
-        obs["fields"].append(list(s._fields))
+        obs["fields"].append([list(s._fields), repr(getattr(s, "_key", None)), repr(getattr(s, "_name", None)), repr(getattr(s, "_env_prefix", None)),
+                              repr(getattr(s, "_dynamic", None)), len(getattr(s, "_validators", []) or [])])
         obs["options"].append([[k, sorted((a, repr(b) if not callable(b) else "<fn>") for a, b in vars(f).items() if a not in ("_default", "_schema", "field", "key_field", "value_field", "config_type"))]
                                for k, f in s._fields.items()])
     return obs
